@@ -24,6 +24,18 @@ Theorem C15_crlset_parse_encode : forall json hdr h issuers,
 Proof. exact crlset_parse_encode. Qed.
 Print Assumptions C15_crlset_parse_encode.
 
+(* and conversely: whatever google.Parse accepts is the encoding of what it returns
+   (no other byte string parses to a set) *)
+Theorem C15_crlset_parse_sound : forall json input s,
+  bytes_ok input -> parse_crlset json input = Some s ->
+  exists hdr h issuers,
+    json hdr = Some h /\ N.of_nat (length hdr) < 65536 /\ Forall wf_issuer issuers /\
+    input = encode_crlset hdr issuers /\
+    s = {| cs_sequence := h_sequence h; cs_numparents := h_numparents h; cs_blocked := h_blocked h;
+           cs_issuers := fold_left issuer_step issuers [] |}.
+Proof. exact crlset_parse_sound. Qed.
+Print Assumptions C15_crlset_parse_sound.
+
 (* ... where the list of an issuer is the one of its last occurrence in the file
    (issuers are distinct in a real CRLSet; a duplicate replaces the earlier list) *)
 Theorem C15_crlset_lookup_last_wins : forall issuers k,
